@@ -14,7 +14,7 @@ def getter_spec(nm, kind, var, named, dflt):
 FNS = [
   F('DescriptorManager::new', trust=True, spec="        ensures typed(r@),   // the store only ever holds entries written by the typed setters"),
   F('DescriptorManager::set', trust=True, spec="        ensures final(self)@ == old(self)@.insert(kv(key), value),"),
-  F('DescriptorManager::get', trust=True, spec="        ensures r == (if self@.dom().contains(kv(key)) { Some(self@[kv(key)]) } else { None::<Descriptor> }),"),
+  F('DescriptorManager::get', props=['C18'], spec="        ensures r == (if self@.dom().contains(kv(key)) { Some(self@[kv(key)]) } else { None::<Descriptor> }),  // @C18 store.get"),
 ]
 for (nm, kind, var, named, dflt) in KINDS:
     name_arg = {'unary': 'op', 'binary': 'op', 'postfix': 'op', 'function': 'name', 'reference': 'name'}.get(nm)
@@ -49,7 +49,7 @@ UNIT = Unit('ds', [
         string_concat=True,
         keep_fns=lambda k: k in KEYS,
         item_attr={'DescriptorKey': '#[verifier::external_derive]', 'Descriptor': '#[verifier::external_derive]'},
-        regex_rules=[('rule28_slice_join', r'&(\w+)\.join\(', r'&vx_join(&\1, '), ('rule28_slice_join', r'(?m)^(\s+)(\w+)\.join\(', r'\1vx_join(&\2, '), ('rule25_visibility', r'(?m)^enum (DescriptorKey|Descriptor)\b', r'pub enum \1'), ('rule25_visibility', r'(?m)^(    )fn (set|get)\(', r'\1pub fn \2('), ('rule24_default_descriptor', r'Arc::new\(default_(\w+)_descriptor\)', r'vx_default_descriptor_\1()')],
+        regex_rules=[('rule30_lock_guard', r'self\.store\.lock\(\)\.unwrap\(\)', 'self.vx_lock()'), ('rule28_slice_join', r'&(\w+)\.join\(', r'&vx_join(&\1, '), ('rule28_slice_join', r'(?m)^(\s+)(\w+)\.join\(', r'\1vx_join(&\2, '), ('rule25_visibility', r'(?m)^enum (DescriptorKey|Descriptor)\b', r'pub enum \1'), ('rule25_visibility', r'(?m)^(    )fn (set|get)\(', r'\1pub fn \2('), ('rule24_default_descriptor', r'Arc::new\(default_(\w+)_descriptor\)', r'vx_default_descriptor_\1()')],
         footer=_t('ds_ghost.rs') + _t('ds_defaults.rs') + 'pub broadcast axiom fn axiom_str_to_string(s: &str, r: String) ensures #[trigger] to_string_from_display_ensures(s, r) ==> r@ == s@;\n'),
     Ghost('\n} } // verus!\nfn main(){}\n', name='tail'),
 ])
